@@ -11,6 +11,9 @@
   (f) reinsert_split        `exitArrayvar`: splitting the entries of an array into values and template
                             parameters (recording each parameter's position `len(value) + len(parameters)`)
                             and re-inserting the parameters in order (`np.insert`) reconstructs the entries.
+  (g) insertAll_eq_splice / hoist_two / hoist_all
+                            `serialize`: `for idx, line in enumerate(b): script.insert(k + idx, line)` splices the
+                            block `b` in at `k`; successive blocks (`array_insert += len(b)`) follow one another.
   Complete proofs; `#print axioms` shows at most propext, Classical.choice, Quot.sound (checked by vlib/leanrun.py).
 -/
 import Mathlib.Data.List.Induction
